@@ -172,6 +172,7 @@ type Run struct {
 	strategy  int
 	stickyP   int // percent
 	lastName  string
+	rtSeed    uint64
 	stallPct  int // percent chance per step (while budget lasts)
 	stallLeft int
 
@@ -204,6 +205,14 @@ type Run struct {
 }
 
 var cur atomic.Pointer[Run]
+
+// RuntimeSeedHook, when set (binaries built with the Go runtime overlay, tag
+// verifrt), receives the per-run seed of the patched runtime's generator for
+// select order and map iteration of goroutines inside the bubble, and 0 at the
+// end of the run. TapeHeader is the number of knob entries at the head of a tape.
+var RuntimeSeedHook func(seed uint64)
+
+const TapeHeader = 5
 
 // Active returns the current run if gating is active in it, else nil.
 func Active() *Run {
@@ -506,6 +515,9 @@ func Execute(t *testing.T, o Options, main func(r *Run)) (res *Result) {
 			r.start = time.Now()
 			r.wake = make(chan struct{}, 1)
 			r.configure()
+			if RuntimeSeedHook != nil {
+				RuntimeSeedHook(r.rtSeed)
+			}
 			cur.Store(r)
 			go func() {
 				defer func() {
@@ -532,6 +544,9 @@ func Execute(t *testing.T, o Options, main func(r *Run)) (res *Result) {
 	}()
 	r.finished.Store(true)
 	cur.Store(nil)
+	if RuntimeSeedHook != nil {
+		RuntimeSeedHook(0)
+	}
 
 	res = &Result{Steps: r.steps, Stalls: r.stalls, Tape: r.tapeOut, Probes: r.probes, Faults: r.faults,
 		Nontrivial: r.nontrivial, Sig: r.sig, Log: r.log, Violations: r.violations,
@@ -630,6 +645,9 @@ func (r *Run) configure() {
 	default:
 		r.stallPct, r.stallLeft = 25, 20
 	}
+	// seed of the patched runtime's select / map-iteration generator (only
+	// effective in binaries built with the runtime overlay)
+	r.rtSeed = uint64(knob(1<<30)) | 1
 }
 
 // loop is the scheduler; it runs on the bubble's root goroutine.
